@@ -259,17 +259,22 @@ func (t *Transaction) With(name string, readOnly bool, createFn func() (Cachable
 	if readOnly {
 		s.mu.RLock()
 		defer s.mu.RUnlock()
+		// By unlocking after we have the cache lock, we guarantee that the cache
+		// will not be scrapped by another goroutine.
+		t.manager.mu.Unlock()
 	} else {
 		// The following shared cache lock is released when the transaction is done.
 		s.mu.Lock()
+		// Release the manager before taking the transaction lock. Another
+		// goroutine of this transaction may hold the transaction lock while it
+		// waits for a cache whose previous writer needs the manager lock to
+		// commit, and holding both here would deadlock all three.
+		t.manager.mu.Unlock()
 		t.mu.Lock()
 		t.writtenCaches[name] = s
 		t.mu.Unlock()
 		// defer s.mu.Unlock()
 	}
-	// By unlocking after we have the cache lock, we guarantee that the cache
-	// will not be scrapped by another goroutine.
-	t.manager.mu.Unlock()
 	if err := f(s.item); err != nil {
 		t.failed.Store(true)
 		s.scrapped = true
